@@ -744,6 +744,22 @@ fn blackhole_part(args: &Args, report: &mut Report) {
                     break;
                 }
             }
+            // (c) two listening candidates, one attempt at a time: the first one given is the first one tried
+            let good2 = tokio::net::TcpListener::bind("127.0.0.12:0").await.ok()?;
+            let good2_addr = good2.local_addr().ok()?;
+            let mut cfg = TcpTransportConfig::default();
+            cfg.happy_eyeballs_timeout = Some(Duration::from_millis(4000));
+            cfg.connect_timeout = Some(Duration::from_secs(6));
+            cfg.happy_eyeballs_concurrency = Some(1);
+            for (name, addrs) in [("two-listening-in-order", vec![good_addr, good2_addr]), ("two-listening-reversed", vec![good2_addr, good_addr])] {
+                let t: TcpTransport = TcpTransport::builder().with_config(cfg.clone()).with_gai_resolver().build();
+                let first = addrs[0];
+                let t0 = Instant::now();
+                let r = tokio::time::timeout(Duration::from_secs(10), t.connect_to_addrs(addrs)).await;
+                let ms = t0.elapsed().as_millis();
+                let res = match r { Err(_) => Err("WATCHDOG".into()), Ok(Ok(s)) => Ok(s.peer_addr().ok().filter(|p| *p != first)), Ok(Err(e)) => Err(e.to_string()) };
+                out.push((name, res, ms));
+            }
             drop(fillers);
             drop(listener);
             Some((out, good_addr))
@@ -785,6 +801,14 @@ fn blackhole_part(args: &Args, report: &mut Report) {
                     p.sample(json!({"public_blackhole_trial": name, "elapsed_ms": ms as u64, "result": format!("{result:?}")}));
                 }
                 match name {
+                    "two-listening-in-order" | "two-listening-reversed" => {
+                        // Ok(None) = connected to the first candidate; Ok(Some(p)) = connected to another one
+                        match &result {
+                            Ok(Some(other)) => p.violation("public:attempts-not-started-in-the-given-order", format!("{name}: both candidates listen, one attempt at a time, connected to {other} instead of the first candidate"), replay.clone()),
+                            Err(e) => p.violation("public:error-although-both-candidates-listen", format!("{name}: {e}"), replay.clone()),
+                            Ok(None) => {}
+                        }
+                    }
                     "single-black-hole" => {
                         // deadline 300 ms; generous one-sided margin for a loaded machine
                         if ms > 300 + 1200 {
@@ -795,6 +819,11 @@ fn blackhole_part(args: &Args, report: &mut Report) {
                         // How TcpConnecting derives its stagger delay from the overall timeout (today: timeout / n) is not
                         // fixed by the property, so "not earlier than the stagger delay" is judged only where the delay
                         // is an input: on the scripted EyeballSet. Here only the deadline is.
+                        // with one attempt at a time the listening candidate has to be started while there is still time
+                        // to connect: a stagger derived so that it falls on (or after) the deadline never tries it
+                        if let Err(e) = &result {
+                            p.violation("public:last-candidate-not-tried-before-the-deadline", format!("{name}: the first candidate never completes, the second one listens, one attempt at a time, overall deadline 2000 ms -> {e} (best of three runs)"), replay.clone());
+                        }
                         if ms > 2000 + 1200 {
                             p.violation("public:deadline-not-enforced:two-candidates", format!("{name}: finished after {ms} ms with an overall deadline of 2000 ms (best of three runs)"), replay.clone());
                         }
